@@ -42,20 +42,33 @@ Record ist := mkI {
 Definition set_sh (s : ist) (sh : shared) : ist := mkI sh (i_relay s) (i_threads s) (i_live s).
 
 (** Prompt.init: the map is created by the regenerated constructor expression *)
-Definition sh_blank : shared := mkSh [] 0 DDefault (fun _ => None) (fun _ => []) 0 counter_start [].
+Definition sh_blank : shared := mkSh [] 0 DDefault (fun _ => None) (fun _ => []) 0 counter_start [] false false false.
 Definition init_shared : shared :=
   match eval 0 sh_blank empty init_queue_map with
   | EOk sh _ VMap _ => sh
   | _ => sh_blank
   end.
 
-(** the relay thread is started (context entered) and runs on to its first get *)
-Definition relay0 : thread := mkT 0 empty [KS relay_thread_body].
-Definition relay_started : shared * thread :=
-  match resume FUEL init_shared relay0 with
-  | RAtGet sh th _ => (sh, th)
-  | _ => (init_shared, relay0)
+(** The plugin framework enters Prompt.context() (a generator): it runs to its yield, entering
+    relay_commands on the way, whose `executor.submit(f, args)` starts the relay thread; the relay
+    thread runs on to its first get.  Both threads are COMPUTED from the regenerated bodies. *)
+Definition ctx0 : thread := mkT 0 empty [KS prompt_context_body].
+Definition booted : shared * thread * thread :=
+  match resume FUEL init_shared ctx0 with
+  | RAtGet sh cx [ISubmit f args] =>
+      match call 0 (fst (fun_def f)) (snd (fun_def f)) args with
+      | Some r0 =>
+          match resume FUEL sh r0 with
+          | RAtGet sh' r _ => (sh', cx, r)
+          | _ => (sh, cx, r0)
+          end
+      | None => (sh, cx, ctx0)
+      end
+  | _ => (init_shared, ctx0, ctx0)
   end.
+Definition relay_started : shared * thread := (fst (fst booted), snd booted).
+(** the context thread, standing at the yield of Prompt.context inside `with relay_commands(..)` *)
+Definition ctx_thread : thread := snd (fst booted).
 
 Definition iinit : ist := mkI (fst relay_started) (snd relay_started) (fun _ => None) (fun _ => false).
 
@@ -108,7 +121,8 @@ Definition istep (s : ist) (l : label) : ist * option out :=
           match call t prompt_func_params prompt_func_body [VNone] with
           | Some th =>
               match resume FUEL sh th with
-              | RAtGet sh' th' [IStartPrompt p] => (mkI sh' (i_relay s) (upd (i_threads s) t (Some (th', p))) (i_live s), Some (OOpened p))
+              | RAtGet sh' th' [IStartPrompt t' p] =>
+                  (mkI sh' (i_relay s) (upd (i_threads s) t (Some (th', p))) (i_live s), if Z.eqb t' t then Some (OOpened p) else None)
               | _ => (s, None)
               end
           | None => (s, None)
@@ -121,10 +135,12 @@ Definition istep (s : ist) (l : label) : ist * option out :=
           match resume FUEL sh th with
           | RBlocked => (s, Some OBlocked)
           | RAtGet sh' th' [IGot i c] => (mkI sh' (i_relay s) (upd (i_threads s) t (Some (th', p))) (i_live s), Some (ODiscard p i c))
-          | RDone sh' (VText i c) [IGot _ _; IEndPrompt p' (VText i' _)] =>
+          | RDone sh' (VText i c) [IGot _ _; IEndPrompt t' p' (VText i' _)] =>
               (mkI sh' (i_relay s) (upd (i_threads s) t None) (i_live s),
-               if Nat.eqb i i' then Some (OExec p' i c) else None)
-          | RDied sh' XAssertion [IGot i _] => (mkI sh' (i_relay s) (upd (i_threads s) t None) (i_live s), Some (OAssert i))
+               if Nat.eqb i i' && Z.eqb t' t then Some (OExec p' i c) else None)
+          | RDied sh' XAssertion [IGot i _; IEndPrompt _ _ VEmptyStr] =>
+              (* the AssertionError leaves _prompt_func through `with on_prompt`: its finally reports command='' *)
+              (mkI sh' (i_relay s) (upd (i_threads s) t None) (i_live s), Some (OAssert i))
           | _ => (s, None)
           end
       | None => (s, Some ONotEnabled)
@@ -157,8 +173,9 @@ Definition K_relay : cont := Eval vm_compute in t_k (i_relay iinit).
 Definition K_take1 : cont :=
   Eval vm_compute in
     match i_threads (iexec_from iinit [StartTrace 1; OpenPrompt 1]) 1 with Some (th, _) => t_k th | None => [] end.
-Definition set_with (p : Z) (k : kitem) : kitem := match k with KWith _ o => KWith p o | x => x end.
-Definition K_take (p : Z) : cont := map (set_with p) K_take1.
+(** the prompt number and the trace number are not in the continuation any more: they are
+    locals of the suspended Repeater.on_prompt generator (held by the with frame) *)
+Definition K_take : cont := K_take1.
 
 (** ================================================================== what each wake-up computes *)
 (** Symbolic execution of the regenerated bodies, one micro-step at a time ([run_step]): [cbn]
@@ -185,19 +202,19 @@ Definition resume_cont (f : nat) (r : mres) (sh : shared) (th : thread) : rres :
 Lemma resume_step : forall f sh th r, mstep sh th = r -> resume f sh th = resume_cont f r sh th.
 Proof. intros; subst; reflexivity. Qed.
 
-Ltac red_cont := cbn [run_cont resume_cont at_get t_k stmt_has_get has_get orb existsb app returned].
+Ltac red_cont := cbn [run_cont resume_cont do_raise at_get has_delim negb t_k stmt_has_get has_get orb existsb app returned].
 Ltac ms tac := solve [cbn; repeat (progress tac; cbn); reflexivity].
 Ltac run1 tac := erewrite run_step by (ms tac); red_cont.
 Ltac res1 tac := erewrite resume_step by (ms tac); red_cont.
 Ltac exec tac := unfold FUEL; res1 tac; repeat run1 tac; try reflexivity.
 
 Lemma send_exec : forall sh c th,
-  call 0 send_command_params send_command_body [VCmd 0 c] = Some th ->
+  call 0 send_command_params send_command_body [VCmd 0 c] = Some th -> h_sentinel sh = false ->
   resume FUEL sh th = RDone (hset_in sh (h_in sh ++ [(h_nsent sh, c)]) (S (h_nsent sh))) VNone [ISent (h_nsent sh)].
-Proof. intros sh c th H. inversion H; subst. exec idtac. Qed.
+Proof. intros sh c th H Hs. inversion H; subst. exec ltac:(rewrite ?Hs). Qed.
 
-Lemma relay_idle : forall sh tno en, h_in sh = [] -> resume FUEL sh (mkT tno en K_relay) = RBlocked.
-Proof. intros sh tno en H. unfold K_relay. exec ltac:(rewrite ?H). Qed.
+Lemma relay_idle : forall sh tno en, h_in sh = [] -> h_sentinel sh = false -> resume FUEL sh (mkT tno en K_relay) = RBlocked.
+Proof. intros sh tno en H Hs. unfold K_relay. exec ltac:(rewrite ?H, ?Hs). Qed.
 
 Lemma relay_some : forall sh tno en i c r id,
   h_in sh = (i, c) :: r -> h_dict sh (c_trace c) = Some id ->
@@ -224,12 +241,15 @@ Lemma end_exec : forall sh t th id,
 Proof. intros sh t th id H E. inversion H; subst. exec ltac:(rewrite ?E). Qed.
 
 Definition env_open (t p : Z) (id : nat) : env :=
-  eupd (eupd (eupd (eupd (eupd empty "pf.a0" VNone) "pf.l0" (VInt p)) "prompt.a0" (VInt p)) "prompt.l0" (VInt t)) "prompt.l1" (VQueue id).
+  eupd (eupd (eupd (eupd (eupd (eupd (eupd (eupd (eupd (eupd (eupd (eupd (eupd empty "pf.a0" VNone) "pf.l0" (VInt p))
+    "op.a0" (VInt p)) "op.a1" VNone) "op.l0" VOpaque) "op.l1" (VInt t)) "op.l2" VOpaque) "op.l3" VOpaque)
+    "op.l4" (VEvent (MStart t p))) "op.l5" VEmptyStr)
+    "prompt.a0" (VInt p)) "prompt.l0" (VInt t)) "prompt.l1" (VQueue id).
 
 Lemma open_exec : forall sh t th id,
   call t prompt_func_params prompt_func_body [VNone] = Some th -> h_dict sh t = Some id ->
   resume FUEL sh th =
-  RAtGet (hset_ctr sh (h_ctr sh + 1)) (mkT t (env_open t (h_ctr sh) id) (K_take (h_ctr sh))) [IStartPrompt (h_ctr sh)].
+  RAtGet (hset_ctr sh (h_ctr sh + 1)) (mkT t (env_open t (h_ctr sh) id) K_take) [IStartPrompt t (h_ctr sh)].
 Proof. intros sh t th id H E. inversion H; subst. exec ltac:(rewrite ?E). Qed.
 
 Section Take.
@@ -237,29 +257,34 @@ Section Take.
   Hypothesis Ha : en "prompt.a0"%string = Some (VInt p).
   Hypothesis Ht : en "prompt.l0"%string = Some (VInt t).
   Hypothesis Hq : en "prompt.l1"%string = Some (VQueue id).
+  Hypothesis Hop : en "op.a0"%string = Some (VInt p).
+  Hypothesis Hol : en "op.l1"%string = Some (VInt t).
+  Hypothesis Ho5 : en "op.l5"%string = Some VEmptyStr.
 
-  Lemma take_blocked : h_heap sh id = [] -> resume FUEL sh (mkT tno en (K_take p)) = RBlocked.
-  Proof. intros E. unfold K_take, K_take1; cbn [map set_with]. exec ltac:(rewrite ?Hq, ?E). Qed.
+  Lemma take_blocked : h_heap sh id = [] -> resume FUEL sh (mkT tno en K_take) = RBlocked.
+  Proof. intros E. unfold K_take, K_take1. exec ltac:(rewrite ?Hq, ?E). Qed.
 
   Lemma take_assert : forall i c r, h_heap sh id = (i, c) :: r -> Z.eqb (c_trace c) t = false ->
-    resume FUEL sh (mkT tno en (K_take p)) = RDied (hset_heap sh (hupd (h_heap sh) id r)) XAssertion [IGot i c].
-  Proof. intros i c r E E1. unfold K_take, K_take1; cbn [map set_with]. exec ltac:(rewrite ?Hq, ?E, ?Ht, ?E1). Qed.
+    resume FUEL sh (mkT tno en K_take) =
+    RDied (hset_heap sh (hupd (h_heap sh) id r)) XAssertion [IGot i c; IEndPrompt t p VEmptyStr].
+  Proof. intros i c r E E1. unfold K_take, K_take1. exec ltac:(rewrite ?Hq, ?E, ?Ht, ?E1, ?Hop, ?Hol, ?Ho5). Qed.
 
   Lemma take_exec : forall i c r, h_heap sh id = (i, c) :: r -> Z.eqb (c_trace c) t = true -> Z.eqb (c_prompt c) p = true ->
-    resume FUEL sh (mkT tno en (K_take p)) =
-    RDone (hset_heap sh (hupd (h_heap sh) id r)) (VText i c) [IGot i c; IEndPrompt p (VText i c)].
-  Proof. intros i c r E E1 E2. unfold K_take, K_take1; cbn [map set_with]. exec ltac:(rewrite ?Hq, ?E, ?Ht, ?E1, ?Ha, ?E2). Qed.
+    resume FUEL sh (mkT tno en K_take) =
+    RDone (hset_heap sh (hupd (h_heap sh) id r)) (VText i c) [IGot i c; IEndPrompt t p (VText i c)].
+  Proof. intros i c r E E1 E2. unfold K_take, K_take1. exec ltac:(rewrite ?Hq, ?E, ?Ht, ?E1, ?Ha, ?E2, ?Hop, ?Hol). Qed.
 
   Lemma take_discard : forall i c r, h_heap sh id = (i, c) :: r -> Z.eqb (c_trace c) t = true -> Z.eqb (c_prompt c) p = false ->
-    resume FUEL sh (mkT tno en (K_take p)) =
+    resume FUEL sh (mkT tno en K_take) =
     RAtGet (hset_heap sh (hupd (h_heap sh) id r))
-           (mkT tno (eupd (eupd en "prompt.l2" (VCmd i c)) "prompt.l3" (VInt (c_prompt c))) (K_take p)) [IGot i c].
-  Proof. intros i c r E E1 E2. unfold K_take, K_take1; cbn [map set_with]. exec ltac:(rewrite ?Hq, ?E, ?Ht, ?E1, ?Ha, ?E2). Qed.
+           (mkT tno (eupd (eupd en "prompt.l2" (VCmd i c)) "prompt.l3" (VInt (c_prompt c))) K_take) [IGot i c].
+  Proof. intros i c r E E1 E2. unfold K_take, K_take1. exec ltac:(rewrite ?Hq, ?E, ?Ht, ?E1, ?Ha, ?E2). Qed.
 End Take.
 
 (** ================================================================== the simulation *)
 Definition thread_ok (sh : shared) (t p : Z) (th : thread) : Prop :=
-  t_k th = K_take p /\ t_env th "prompt.a0"%string = Some (VInt p) /\ t_env th "prompt.l0"%string = Some (VInt t) /\
+  t_k th = K_take /\ t_env th "prompt.a0"%string = Some (VInt p) /\ t_env th "prompt.l0"%string = Some (VInt t) /\
+  t_env th "op.a0"%string = Some (VInt p) /\ t_env th "op.l1"%string = Some (VInt t) /\ t_env th "op.l5"%string = Some VEmptyStr /\
   exists id, h_dict sh t = Some id /\ t_env th "prompt.l1"%string = Some (VQueue id).
 
 Record R (s : ist) (m : state) : Prop := mkR {
@@ -267,6 +292,7 @@ Record R (s : ist) (m : state) : Prop := mkR {
   r_nsent : h_nsent (i_sh s) = s_nsent m;
   r_ctr : h_ctr (i_sh s) = s_ctr m;
   r_kind : h_kind (i_sh s) = DPlain;
+  r_sentinel : h_sentinel (i_sh s) = false;
   r_map : forall t, s_map m t = iqueue s t;                (* the queues *)
   r_fresh : forall t id, h_dict (i_sh s) t = Some id -> (id < h_next (i_sh s))%nat;
   r_inj : forall t t' id, h_dict (i_sh s) t = Some id -> h_dict (i_sh s) t' = Some id -> t = t';
@@ -289,32 +315,33 @@ Proof. intros. unfold upd. destruct (Z.eqb_spec x k); [contradiction | reflexivi
 
 Definition sim1 (s : ist) (m : state) (l : label) : Prop :=
   R (fst (istep s l)) (fst (step m l)) /\ snd (istep s l) = Some (snd (step m l)) /\
-  h_open (i_sh (fst (istep s l))) = h_open (i_sh s).          (* the child never touches context.open_prompts *)
+  (h_open (i_sh (fst (istep s l))) = h_open (i_sh s) /\        (* the child never touches context.open_prompts *)
+   h_bound (i_sh (fst (istep s l))) = h_bound (i_sh s)).       (* nor context.send_command *)
 
 (** threads of other traces do not care about a change of the shared state that keeps the dict *)
 Lemma thread_ok_dict : forall sh sh' t p th, (h_dict sh' t = h_dict sh t) -> thread_ok sh t p th -> thread_ok sh' t p th.
-Proof. intros sh sh' t p th E (A & B & C & id & D & F). repeat split; auto. exists id. rewrite E. auto. Qed.
+Proof. intros sh sh' t p th E (A & B & C & B' & C' & D' & id & D & F). repeat split; auto. exists id. rewrite E. auto. Qed.
 
 Lemma sim_send : forall s m c, R s m -> sim1 s m (Send c).
 Proof.
-  intros [sh rel thr live] [mi mm mo mc mn] c [Hin Hns Hc Hk Hm Hf Hi Hl Ho Hrk Hrf]. cbn in *. subst mi mn mc.
+  intros [sh rel thr live] [mi mm mo mc mn] c [Hin Hns Hc Hk Hsn Hm Hf Hi Hl Ho Hrk Hrf]. cbn in *. subst mi mn mc.
   unfold sim1, istep. cbn [i_sh].
   destruct (call 0 send_command_params send_command_body [VCmd 0 c]) as [th | ] eqn:Ec; [ | cbv in Ec; discriminate Ec].
-  rewrite (send_exec sh c th Ec). cbn [fst snd step set_sh i_sh i_relay i_threads i_live s_in s_nsent s_map s_open s_ctr].
-  split; [ | split; reflexivity].
+  rewrite (send_exec sh c th Ec Hsn). cbn [fst snd step set_sh i_sh i_relay i_threads i_live s_in s_nsent s_map s_open s_ctr].
+  split; [ | repeat split; reflexivity].
   constructor; cbn; auto.
 Qed.
 
 Lemma sim_relay : forall s m, R s m -> sim1 s m Relay.
 Proof.
-  intros [sh [rno ren rk] thr live] [mi mm mo mc mn] [Hin Hns Hc Hk Hm Hf Hi Hl Ho Hrk Hrf]. cbn in *. subst mi mn mc rk.
+  intros [sh [rno ren rk] thr live] [mi mm mo mc mn] [Hin Hns Hc Hk Hsn Hm Hf Hi Hl Ho Hrk Hrf]. cbn in *. subst mi mn mc rk.
   unfold sim1, istep, step. cbn [i_sh i_relay s_in s_map].
   destruct (h_in sh) as [ | [i c] r] eqn:Ein.
-  - rewrite (relay_idle sh rno ren Ein). cbn. split; [ | split; reflexivity].
+  - rewrite (relay_idle sh rno ren Ein Hsn). cbn. split; [ | repeat split; reflexivity].
     constructor; cbn; auto.
   - specialize (Hm (c_trace c)) as Hmc. unfold iqueue in Hmc. cbn in Hmc.
     destruct (h_dict sh (c_trace c)) as [id | ] eqn:Ed.
-    + rewrite (relay_some sh rno ren i c r id Ein Ed). rewrite Hmc. cbn. rewrite Nat.eqb_refl. split; [ | split; reflexivity].
+    + rewrite (relay_some sh rno ren i c r id Ein Ed). rewrite Hmc. cbn. rewrite Nat.eqb_refl. split; [ | repeat split; reflexivity].
       constructor; cbn; auto.
       * intros t. unfold iqueue. cbn. destruct (Z.eqb_spec t (c_trace c)) as [-> | Hne].
         -- rewrite upd_eq, Ed. unfold hupd. rewrite Nat.eqb_refl. reflexivity.
@@ -322,19 +349,19 @@ Proof.
            destruct (h_dict sh t) as [id' | ] eqn:Et; [ | reflexivity].
            unfold hupd. destruct (Nat.eqb_spec id' id) as [-> | Hn]; [ | reflexivity].
            exfalso. apply Hne. eapply Hi; eassumption.
-    + rewrite (relay_none sh rno ren i c r Hk Hrf Ein Ed). rewrite Hmc. cbn. split; [ | split; reflexivity].
+    + rewrite (relay_none sh rno ren i c r Hk Hrf Ein Ed). rewrite Hmc. cbn. split; [ | repeat split; reflexivity].
       constructor; cbn; auto.
 Qed.
 
 Lemma sim_start : forall s m t, R s m -> sim1 s m (StartTrace t).
 Proof.
-  intros [sh rel thr live] [mi mm mo mc mn] t [Hin Hns Hc Hk Hm Hf Hi Hl Ho Hrk Hrf]. cbn in *. subst mi mn mc.
+  intros [sh rel thr live] [mi mm mo mc mn] t [Hin Hns Hc Hk Hsn Hm Hf Hi Hl Ho Hrk Hrf]. cbn in *. subst mi mn mc.
   unfold sim1, istep, step. cbn [i_sh i_live s_map].
   rewrite Hl, Hm. unfold iqueue. cbn [i_sh].
   destruct (h_dict sh t) as [id | ] eqn:Ed.
-  - cbn. split; [ | split; reflexivity]. constructor; cbn; auto.
+  - cbn. split; [ | repeat split; reflexivity]. constructor; cbn; auto.
   - destruct (call t on_start_trace_params on_start_trace_body [VInt t]) as [th | ] eqn:Ec; [ | cbv in Ec; discriminate Ec].
-    rewrite (start_exec sh t th Ec). cbn. split; [ | split; reflexivity].
+    rewrite (start_exec sh t th Ec). cbn. split; [ | repeat split; reflexivity].
     constructor; cbn; auto.
     + intros t'. unfold iqueue. cbn. destruct (Z.eqb_spec t' t) as [-> | Hne].
       * rewrite !upd_eq. rewrite Nat.eqb_refl. reflexivity.
@@ -354,7 +381,7 @@ Proof.
       * rewrite !upd_neq by assumption. apply Hl.
     + intros t'. specialize (Ho t'). destruct (mo t') as [p | ]; [ | assumption].
       destruct Ho as (th' & A & B). exists th'. split; [assumption | ]. eapply thread_ok_dict; [ | exact B].
-      cbn. destruct B as (_ & _ & _ & id' & D & _). apply upd_neq. intros ->. congruence.
+      cbn. destruct B as (_ & _ & _ & _ & _ & _ & id' & D & _). apply upd_neq. intros ->. congruence.
 Qed.
 
 Lemma open_threads : forall s m t, R s m -> (i_threads s t = None <-> s_open m t = None).
@@ -367,16 +394,16 @@ Qed.
 Lemma sim_end : forall s m t, R s m -> sim1 s m (EndTrace t).
 Proof.
   intros s m t H. pose proof (open_threads s m t H) as Hot. revert Hot.
-  destruct s as [sh rel thr live]; destruct m as [mi mm mo mc mn]; destruct H as [Hin Hns Hc Hk Hm Hf Hi Hl Ho Hrk Hrf]. cbn in *. subst mi mn mc.
+  destruct s as [sh rel thr live]; destruct m as [mi mm mo mc mn]; destruct H as [Hin Hns Hc Hk Hsn Hm Hf Hi Hl Ho Hrk Hrf]. cbn in *. subst mi mn mc.
   intros Hot. unfold sim1, istep, step. cbn [i_sh i_live i_threads s_map s_open].
   rewrite Hl, Hm. unfold iqueue. cbn [i_sh].
   destruct (h_dict sh t) as [id | ] eqn:Ed.
   - destruct (mo t) as [p | ] eqn:Eo.
     + destruct (thr t) eqn:Et; [ | exfalso; destruct Hot as [Hot _]; specialize (Hot eq_refl); discriminate].
-      cbn. split; [ | split; reflexivity]. constructor; cbn; auto.
+      cbn. split; [ | repeat split; reflexivity]. constructor; cbn; auto.
     + destruct Hot as [_ Hot]. rewrite (Hot eq_refl).
       destruct (call t on_end_trace_params on_end_trace_body [VInt t]) as [th | ] eqn:Ec; [ | cbv in Ec; discriminate Ec].
-      rewrite (end_exec sh t th id Ec Ed). cbn. split; [ | split; reflexivity].
+      rewrite (end_exec sh t th id Ec Ed). cbn. split; [ | repeat split; reflexivity].
       constructor; cbn; auto.
       * intros t'. unfold iqueue. cbn. destruct (Z.eqb_spec t' t) as [-> | Hne].
         -- rewrite !upd_eq. reflexivity.
@@ -388,40 +415,40 @@ Proof.
       * intros t'. specialize (Ho t'). destruct (mo t') as [p | ] eqn:Eo'; [ | assumption].
         destruct Ho as (th' & A & B). exists th'. split; [assumption | ]. eapply thread_ok_dict; [ | exact B].
         cbn. apply upd_neq. intros ->. congruence.
-  - cbn. split; [ | split; reflexivity]. constructor; cbn; auto.
+  - cbn. split; [ | repeat split; reflexivity]. constructor; cbn; auto.
 Qed.
 
-Lemma env_open_ok : forall sh t p id, h_dict sh t = Some id -> thread_ok sh t p (mkT t (env_open t p id) (K_take p)).
+Lemma env_open_ok : forall sh t p id, h_dict sh t = Some id -> thread_ok sh t p (mkT t (env_open t p id) K_take).
 Proof. intros sh t p id E. repeat split. exists id. split; [assumption | reflexivity]. Qed.
 
 Lemma sim_open : forall s m t, R s m -> sim1 s m (OpenPrompt t).
 Proof.
   intros s m t H. pose proof (open_threads s m t H) as Hot. revert Hot.
-  destruct s as [sh rel thr live]; destruct m as [mi mm mo mc mn]; destruct H as [Hin Hns Hc Hk Hm Hf Hi Hl Ho Hrk Hrf]. cbn in *. subst mi mn mc.
+  destruct s as [sh rel thr live]; destruct m as [mi mm mo mc mn]; destruct H as [Hin Hns Hc Hk Hsn Hm Hf Hi Hl Ho Hrk Hrf]. cbn in *. subst mi mn mc.
   intros Hot. unfold sim1, istep, step. cbn [i_sh i_live i_threads s_map s_open].
   rewrite Hl, Hm. unfold iqueue. cbn [i_sh].
   destruct (h_dict sh t) as [id | ] eqn:Ed.
   - destruct (mo t) as [p | ] eqn:Eo.
     + destruct (thr t) eqn:Et; [ | exfalso; destruct Hot as [Hot _]; specialize (Hot eq_refl); discriminate].
-      cbn. split; [ | split; reflexivity]. constructor; cbn; auto.
+      cbn. split; [ | repeat split; reflexivity]. constructor; cbn; auto.
     + destruct Hot as [_ Hot]. rewrite (Hot eq_refl).
       destruct (call t prompt_func_params prompt_func_body [VNone]) as [th | ] eqn:Ec; [ | cbv in Ec; discriminate Ec].
-      rewrite (open_exec sh t th id Ec Ed). cbn. split; [ | split; reflexivity].
+      rewrite (open_exec sh t th id Ec Ed). cbn. rewrite Z.eqb_refl. split; [ | repeat split; reflexivity].
       constructor; cbn; auto.
       intros t'. destruct (Z.eqb_spec t' t) as [-> | Hne].
       * rewrite !upd_eq. eexists. split; [reflexivity | ]. apply env_open_ok. exact Ed.
       * rewrite !upd_neq by assumption. specialize (Ho t'). destruct (mo t') as [p | ]; [ | assumption].
         destruct Ho as (th' & A & B). exists th'. split; [assumption | ]. eapply thread_ok_dict; [ | exact B]. reflexivity.
-  - cbn. split; [ | split; reflexivity]. constructor; cbn; auto.
+  - cbn. split; [ | repeat split; reflexivity]. constructor; cbn; auto.
 Qed.
 
 Lemma sim_take : forall s m t, R s m -> sim1 s m (Take t).
 Proof.
-  intros [sh rel thr live] [mi mm mo mc mn] t [Hin Hns Hc Hk Hm Hf Hi Hl Ho Hrk Hrf]. cbn in *. subst mi mn mc.
+  intros [sh rel thr live] [mi mm mo mc mn] t [Hin Hns Hc Hk Hsn Hm Hf Hi Hl Ho Hrk Hrf]. cbn in *. subst mi mn mc.
   unfold sim1, istep, step. cbn [i_sh i_threads s_map s_open].
   pose proof (Ho t) as Hot. destruct (mo t) as [p | ] eqn:Eo.
-  2:{ rewrite Hot. cbn. split; [ | split; reflexivity]. constructor; cbn; auto. }
-  destruct Hot as ([tno en k] & Et & Hk' & Ha & Hl0 & id & Ed & Hq). cbn [t_k t_env] in Hk', Ha, Hl0, Hq. subst k.
+  2:{ rewrite Hot. cbn. split; [ | repeat split; reflexivity]. constructor; cbn; auto. }
+  destruct Hot as ([tno en k] & Et & Hk' & Ha & Hl0 & Hop & Hol & Ho5 & id & Ed & Hq). cbn [t_k t_env] in Hk', Ha, Hl0, Hq, Hop, Hol, Ho5. subst k.
   rewrite Et. rewrite Hm. unfold iqueue. cbn [i_sh]. rewrite Ed.
   (* what the rest of R looks like after the queue of t lost its head *)
   assert (Hmap : forall r, h_heap sh id <> [] -> forall t', upd mm t (Some r) t' = iqueue (mkI (hset_heap sh (hupd (h_heap sh) id r)) rel thr live) t'
@@ -435,18 +462,18 @@ Proof.
         exfalso. apply Hne. eapply Hi; eassumption. }
     split; auto. }
   destruct (h_heap sh id) as [ | [i c] r] eqn:Eh.
-  - rewrite (take_blocked sh tno en p id Hq Eh). cbn. split; [ | split; reflexivity]. constructor; cbn; auto.
+  - rewrite (take_blocked sh tno en id Hq Eh). cbn. split; [ | repeat split; reflexivity]. constructor; cbn; auto.
   - assert (Hne : (i, c) :: r <> []) by discriminate. specialize (Hmap r Hne).
     destruct (Z.eqb (c_trace c) t) eqn:E1; cbn [negb].
     + destruct (Z.eqb (c_prompt c) p) eqn:E2.
-      * rewrite (take_exec sh tno en p t id Ha Hl0 Hq i c r Eh E1 E2). cbn. rewrite Nat.eqb_refl. split; [ | split; reflexivity].
+      * rewrite (take_exec sh tno en p t id Ha Hl0 Hq Hop Hol i c r Eh E1 E2). cbn. rewrite Nat.eqb_refl, Z.eqb_refl. cbn. split; [ | repeat split; reflexivity].
         constructor; cbn; auto.
         -- intros t'. apply Hmap.
         -- intros t'. destruct (Z.eqb_spec t' t) as [-> | Hn].
            ++ rewrite !upd_eq. reflexivity.
            ++ rewrite !upd_neq by assumption. specialize (Ho t'). destruct (mo t') as [p' | ]; [ | assumption].
               destruct Ho as (th' & A & B). exists th'. split; [assumption | ]. eapply thread_ok_dict; [ | exact B]. reflexivity.
-      * rewrite (take_discard sh tno en p t id Ha Hl0 Hq i c r Eh E1 E2). cbn. split; [ | split; reflexivity].
+      * rewrite (take_discard sh tno en p t id Ha Hl0 Hq i c r Eh E1 E2). cbn. split; [ | repeat split; reflexivity].
         constructor; cbn; auto.
         -- intros t'. apply Hmap.
         -- intros t'. destruct (Z.eqb_spec t' t) as [-> | Hn].
@@ -454,7 +481,7 @@ Proof.
               repeat split; cbn; auto. exists id. split; [assumption | ]. cbn. assumption.
            ++ rewrite upd_neq by assumption. specialize (Ho t'). destruct (mo t') as [p' | ]; [ | assumption].
               destruct Ho as (th' & A & B). exists th'. split; [assumption | ]. eapply thread_ok_dict; [ | exact B]. reflexivity.
-    + rewrite (take_assert sh tno en p t id Hl0 Hq i c r Eh E1). cbn. split; [ | split; reflexivity].
+    + rewrite (take_assert sh tno en p t id Hl0 Hq Hop Hol Ho5 i c r Eh E1). cbn. split; [ | repeat split; reflexivity].
       constructor; cbn; auto.
       * intros t'. apply Hmap.
       * intros t'. destruct (Z.eqb_spec t' t) as [-> | Hn].
@@ -577,10 +604,10 @@ Theorem tie_put_on_own_queue : forall ls,
   | _ => False
   end.
 Proof.
-  intros ls s. destruct (sim ls) as [_ H]. fold s in H. destruct H as [_ _ _ Hk _ _ Hi _ _ Hrk Hrf].
+  intros ls s. destruct (sim ls) as [_ H]. fold s in H. destruct H as [_ _ _ Hk Hsn _ _ Hi _ _ Hrk Hrf].
   destruct (i_relay s) as [rno ren rk]. cbn in Hrk, Hrf. subst rk.
   destruct (h_in (i_sh s)) as [ | [i c] r] eqn:Ein.
-  - rewrite (relay_idle _ rno ren Ein). reflexivity.
+  - rewrite (relay_idle _ rno ren Ein Hsn). reflexivity.
   - destruct (h_dict (i_sh s) (c_trace c)) as [id | ] eqn:Ed.
     + rewrite (relay_some _ rno ren i c r id Ein Ed). split; [reflexivity | ]. split; [exact Hk | ].
       exists i, c, r. split; [reflexivity | ]. rewrite Ed. split; [reflexivity | ].
@@ -639,3 +666,120 @@ Example tie_example :
     [Some OStarted; Some (OOpened 1); Some (OSent 0); Some (OSent 1); Some (ODropped 0); Some (ORelayed 1);
      Some (OExec 1 1 (mkCmd 1 1 8))].
 Proof. vm_compute. split; reflexivity. Qed.
+
+(** ================================================================== start-up and shut-down of the relay *)
+(** relay_commands is interpreted as what it is: a generator context manager with
+    `with ThreadPoolExecutor(max_workers=1)`, `executor.submit(try_again_on_error, fn)`,
+    `try: yield  finally: queue_in.put(None); future.result()`.  The protected body is the single
+    `yield` (the whole run happens there), so "the finally body is reached from every suspension
+    point of the protected body" is: reached when the context is left normally AND when the
+    body raised (the exception is thrown into the generator at its yield). *)
+Definition K_ctx : cont := Eval vm_compute in t_k ctx_thread.
+
+(** entering Prompt.context() submits exactly try_again_on_error(fn) and stops at the yield *)
+Lemma boot_submits :
+  exists sh cx, resume FUEL init_shared ctx0 = RAtGet sh cx [ISubmit FnTryAgain [VFun FnFn]] /\ t_k cx = K_ctx /\
+                sh = init_shared /\ at_get (t_k cx) = true.
+Proof. eexists. eexists. split; [vm_compute; reflexivity | ]. repeat split. Qed.
+
+(** the relay thread of every run IS that submitted call, run to its first get *)
+Lemma relay_is_the_submitted_call : t_k (i_relay iinit) = K_relay /\ t_env (i_relay iinit) "ta.a0"%string = Some (VFun FnFn).
+Proof. split; reflexivity. Qed.
+
+Definition K_ctx_wait : cont := Eval vm_compute in
+  match after_yield (mkT 0 empty K_ctx) None with
+  | Some th => match resume FUEL init_shared th with RAtGet _ th' _ => t_k th' | _ => [] end
+  | None => []
+  end.
+Definition K_ctx_wait_raising (x : exc) : cont := Eval vm_compute in
+  match after_yield (mkT 0 empty K_ctx) (Some x) with
+  | Some th => match resume FUEL init_shared th with RAtGet _ th' _ => t_k th' | _ => [] end
+  | None => []
+  end.
+
+(** leaving the context normally: the sentinel is put, then the thread waits for the future *)
+Lemma ctx_exit_normal : forall sh tno en th,
+  h_sentinel sh = false -> after_yield (mkT tno en K_ctx) None = Some th ->
+  resume FUEL sh th = RAtGet (hset_sentinel sh true) (mkT tno en K_ctx_wait) [ISentinel].
+Proof. intros sh tno en th Hs H. inversion H; subst. exec ltac:(rewrite ?Hs). Qed.
+
+(** the body raised x: the SAME finally body runs (sentinel, wait), with x still propagating behind it *)
+Lemma ctx_exit_raising : forall sh tno en th x,
+  h_sentinel sh = false -> after_yield (mkT tno en K_ctx) (Some x) = Some th ->
+  resume FUEL sh th = RAtGet (hset_sentinel sh true) (mkT tno en (K_ctx_wait_raising x)) [ISentinel].
+Proof. intros sh tno en th x Hs H. inversion H; subst. destruct x; exec ltac:(rewrite ?Hs). Qed.
+
+(** while the relay thread is alive the context thread stays blocked; once its future is done the
+    context is left: normally, or with the body's exception *)
+Lemma ctx_waits : forall sh tno en, h_relay_done sh = false ->
+  resume FUEL sh (mkT tno en K_ctx_wait) = RBlocked /\ forall x, resume FUEL sh (mkT tno en (K_ctx_wait_raising x)) = RBlocked.
+Proof. intros sh tno en H. split; [ | intros x; destruct x]; exec ltac:(rewrite ?H). Qed.
+
+(** (future.result() returns; then the exit of `with ThreadPoolExecutor` waits for the same future: a second wake-up) *)
+Lemma ctx_ends : forall sh tno en, h_relay_done sh = true ->
+  (exists th' v, resume FUEL sh (mkT tno en K_ctx_wait) = RAtGet sh th' [] /\ resume FUEL sh th' = RDone sh v []) /\
+  forall x, exists th', resume FUEL sh (mkT tno en (K_ctx_wait_raising x)) = RAtGet sh th' [] /\ resume FUEL sh th' = RDied sh x [].
+Proof.
+  intros sh tno en H. split; [eexists | intros x; destruct x]; eexists; (split; [exec ltac:(rewrite ?H) | exec ltac:(rewrite ?H)]).
+Qed.
+
+(** the relay thread at its get, queue_in empty, the sentinel there: `while msg := queue_in.get()`
+    ends, fn returns, try_again_on_error returns: the thread (the future) is done *)
+Lemma relay_ends : forall sh tno en, h_in sh = [] -> h_sentinel sh = true ->
+  resume FUEL sh (mkT tno en K_relay) = RDone (hset_sentinel sh false) VNone [].
+Proof. intros sh tno en H Hs. unfold K_relay. exec ltac:(rewrite ?H, ?Hs). Qed.
+
+(** ... and until then it relays exactly as without the sentinel *)
+Definition with_sentinel (s : ist) (b : bool) : ist := set_sh s (hset_sentinel (i_sh s) b).
+
+Lemma relay_step_sentinel : forall s m b, R s m -> h_in (i_sh s) <> [] ->
+  istep (with_sentinel s b) Relay = (with_sentinel (fst (istep s Relay)) b, snd (istep s Relay)).
+Proof.
+  intros [sh [rno ren rk] thr live] m b [Hin Hns Hc Hk Hsn Hm Hf Hi Hl Ho Hrk Hrf] Hne. cbn in *. subst rk.
+  unfold istep, with_sentinel. cbn [i_sh i_relay set_sh i_threads i_live].
+  destruct (h_in sh) as [ | [i c] r] eqn:Ein; [contradiction | ].
+  destruct (h_dict sh (c_trace c)) as [id | ] eqn:Ed.
+  - rewrite (relay_some sh rno ren i c r id Ein Ed).
+    rewrite (relay_some (hset_sentinel sh b) rno ren i c r id); [ | exact Ein | exact Ed].
+    cbn. destruct (Nat.eqb i i); reflexivity.
+  - rewrite (relay_none sh rno ren i c r Hk Hrf Ein Ed).
+    rewrite (relay_none (hset_sentinel sh b) rno ren i c r); [ | exact Hk | exact Hrf | exact Ein | exact Ed].
+    reflexivity.
+Qed.
+
+Fixpoint relay_n (n : nat) (s : ist) : ist :=
+  match n with O => s | S k => relay_n k (fst (istep s Relay)) end.
+
+Lemma with_sentinel_false : forall s m, R s m -> with_sentinel s false = s.
+Proof.
+  intros [[a b c d e f g h i j k] rel thr live] m H. pose proof (r_sentinel _ _ H) as Hs. cbn in Hs. subst i. reflexivity.
+Qed.
+
+(** SHUT-DOWN: from ANY reachable state, once the sentinel is behind the commands of queue_in, the
+    relay thread relays those commands exactly as the model's Relay does (one per wake-up, in
+    order, none lost), then takes the sentinel and ends: future.result() returns *)
+Theorem relay_drains_and_ends : forall n s m, R s m -> n = length (s_in m) ->
+  let s' := relay_n n (with_sentinel s true) in
+  R (with_sentinel s' false) (exec_from m (repeat Relay n)) /\
+  h_in (i_sh s') = [] /\ h_sentinel (i_sh s') = true /\
+  resume FUEL (i_sh s') (i_relay s') = RDone (hset_sentinel (i_sh s') false) VNone [].
+Proof.
+  induction n as [ | n IH]; intros s m H Hn s'.
+  - subst s'. cbn [relay_n repeat exec_from].
+    assert (E : h_in (i_sh s) = []).
+    { rewrite (r_in _ _ H). destruct (s_in m); [reflexivity | discriminate Hn]. }
+    split; [ | split; [ | split]].
+    + destruct s as [[a b c d e f g h i j k] rel thr live]. pose proof (r_sentinel _ _ H) as Hs. cbn in Hs. subst i. exact H.
+    + destruct s as [sh rel thr live]; exact E.
+    + destruct s as [sh rel thr live]; reflexivity.
+    + destruct s as [sh [rno ren rk] thr live]. pose proof (r_relay_k _ _ H) as Hk. cbn in Hk, E |- *. subst rk.
+      apply relay_ends; [exact E | reflexivity].
+  - assert (Hne : h_in (i_sh s) <> []).
+    { rewrite (r_in _ _ H). destruct (s_in m); [discriminate Hn | discriminate]. }
+    destruct (step_sim s m Relay H) as (H1 & _ & _).
+    assert (Hlen : n = length (s_in (fst (step m Relay)))).
+    { unfold step. destruct (s_in m) as [ | [i c] r]; [discriminate Hn | ]. cbn in Hn.
+      destruct (s_map m (c_trace c)); cbn; lia. }
+    subst s'. cbn [relay_n repeat exec_from]. rewrite (relay_step_sentinel s m true H Hne). cbn [fst].
+    exact (IH _ _ H1 Hlen).
+Qed.
